@@ -1000,3 +1000,121 @@ Proof.
   - apply Rltb_true. rewrite Rabs_R1. lra.
   - intros; lra.
 Qed.
+
+(* ------------------------------------------------------------------ *)
+(* YeoJohnson: the same-side hypothesis also holds for every w >= 2 EPS  *)
+(* (uses the extracted lower bound lam >= -1): exact invertibility fails *)
+(* only inside the band 0 < w < 2 EPS                                    *)
+Lemma exp_ge_1_plus x : 1 + x <= exp x.
+Proof. apply exp_ineq1_le. Qed.
+
+(* ln (1+w) >= w/(1+w) for w > -1 *)
+Lemma ln_1p_lower w : 0 < 1 + w -> w / (1 + w) <= ln (1 + w).
+Proof.
+  intros Hw. set (L := ln (1 + w)).
+  pose proof (exp_ge_1_plus (- L)) as H. unfold L in H. rewrite exp_Ropp, exp_ln in H by assumption.
+  fold L in H.
+  assert (E : / (1 + w) = 1 - w / (1 + w)) by (field; lra).
+  rewrite E in H. lra.
+Qed.
+
+(* 1 - exp(-s) >= s/(1+s) for s >= 0 *)
+Lemma one_minus_exp_neg s : 0 <= s -> s / (1 + s) <= 1 - exp (- s).
+Proof.
+  intros Hs. pose proof (exp_ge_1_plus s) as H. rewrite exp_Ropp.
+  assert (Hp : 0 < 1 + s) by lra.
+  assert (Hi : / exp s <= / (1 + s)) by (apply Rinv_le_contravar; lra).
+  assert (E : s / (1 + s) = 1 - / (1 + s)) by (field; lra).
+  rewrite E. lra.
+Qed.
+
+Lemma yj_lam_ge_m1 nu scale lam : yj_params_ok nu scale lam -> -1 <= lam.
+Proof.
+  intros (_ & _ & [Hl _]). unfold TR_YeoJohnson_lam_min in Hl. simpl in Hl. lra.
+Qed.
+
+(* on the positive side y >= L/(1+L), L = ln(1+w) *)
+Lemma yj_fwd_w_lower lam w :
+  -1 <= lam -> EPS <= w -> ln (1 + w) / (1 + ln (1 + w)) <= yj_fwd_w lam w.
+Proof.
+  intros Hl Hw. pose proof EPS_pos as He.
+  assert (HL : 0 < ln (1 + w)) by (rewrite <- ln_1; apply ln_increasing; lra).
+  set (L := ln (1 + w)) in *.
+  assert (Hq : L / (1 + L) <= L).
+  { apply (Rmult_le_reg_r (1 + L)); [lra|]. unfold Rdiv. rewrite Rmult_assoc, Rinv_l by lra. nra. }
+  unfold yj_fwd_w. rewrite (proj2 (Rleb_true EPS w) Hw).
+  replace (w + 1) with (1 + w) by ring.
+  destruct (isclose lam 0) eqn:Ec; simpl.
+  - fold L. exact Hq.
+  - assert (Hn : lam <> 0) by (apply not_isclose_neq; assumption).
+    unfold Rpower. fold L.
+    destruct (Rlt_dec 0 lam) as [Hp|Hp].
+    + (* exp(lam L) - 1 >= lam L *)
+      pose proof (exp_ge_1_plus (lam * L)).
+      assert (L <= (exp (lam * L) - 1) / lam).
+      { apply (Rmult_le_reg_r lam); [assumption|]. unfold Rdiv. rewrite Rmult_assoc, Rinv_l by lra. lra. }
+      lra.
+    + assert (Hneg : lam < 0) by lra.
+      set (s := - lam * L).
+      assert (Hs : 0 <= s).
+      { assert (0 <= (- lam) * L) by (apply Rmult_le_pos; lra). unfold s. lra. }
+      pose proof (one_minus_exp_neg s Hs) as H1.
+      replace (- s) with (lam * L) in H1 by (unfold s; ring).
+      (* (exp(lam L) - 1)/lam = (1 - exp(lam L))/(-lam) >= (s/(1+s))/(-lam) = L/(1+s) >= L/(1+L) *)
+      assert (Hs1 : s <= L).
+      { assert (0 <= (1 + lam) * L) by (apply Rmult_le_pos; lra). unfold s. nra. }
+      assert (H2 : L / (1 + L) <= L / (1 + s)).
+      { unfold Rdiv. apply Rmult_le_compat_l; [lra|]. apply Rinv_le_contravar; lra. }
+      assert (H3 : L / (1 + s) = (s / (1 + s)) / (- lam)).
+      { assert (Es : s / (- lam) = L) by (unfold s; field; lra).
+        rewrite <- Es at 1. field. split; lra. }
+      assert (H4 : (s / (1 + s)) / (- lam) <= (1 - exp (lam * L)) / (- lam)).
+      { unfold Rdiv. apply Rmult_le_compat_r; [|exact H1]. left. apply Rinv_0_lt_compat. lra. }
+      assert (H5 : (1 - exp (lam * L)) / (- lam) = (exp (lam * L) - 1) / lam) by (field; lra).
+      lra.
+Qed.
+
+Lemma yj_same_side_pos lam w : -1 <= lam -> 2 * EPS <= w -> yj_same_side lam w.
+Proof.
+  intros Hl Hw. pose proof EPS_pos as He. pose proof EPS_lt_1 as He1.
+  assert (He4 : EPS < 1 / 4) by (unfold EPS, TR_EPS; lra).
+  unfold yj_same_side. split; intros _; [|lra].
+  assert (Hw1 : EPS <= w) by lra.
+  pose proof (yj_fwd_w_lower lam w Hl Hw1) as Hy.
+  pose proof (ln_1p_lower w ltac:(lra)) as HL.
+  set (L := ln (1 + w)) in *.
+  assert (HL0 : 0 < w / (1 + w)) by (apply Rdiv_lt_0_compat; lra).
+  (* t |-> t/(1+t) is increasing: L/(1+L) >= (w/(1+w))/(1+w/(1+w)) = w/(1+2w) >= EPS *)
+  assert (Hm : (w / (1 + w)) / (1 + w / (1 + w)) <= L / (1 + L)).
+  { set (a := w / (1 + w)) in *.
+    apply (Rmult_le_reg_r ((1 + a) * (1 + L))); [nra|].
+    replace (a / (1 + a) * ((1 + a) * (1 + L))) with (a * (1 + L)) by (field; lra).
+    replace (L / (1 + L) * ((1 + a) * (1 + L))) with (L * (1 + a)) by (field; lra).
+    nra. }
+  assert (Hv : (w / (1 + w)) / (1 + w / (1 + w)) = w / (1 + 2 * w)) by (field; split; lra).
+  assert (Hf : EPS <= w / (1 + 2 * w)).
+  { apply (Rmult_le_reg_r (1 + 2 * w)); [lra|].
+    unfold Rdiv. rewrite Rmult_assoc, Rinv_l by lra. nra. }
+  lra.
+Qed.
+
+Lemma yj_bwd_fwd_outside_band nu scale lam x :
+  yj_params_ok nu scale lam ->
+  (yj_w nu scale x <= 0 \/ 2 * EPS <= yj_w nu scale x) ->
+  yj_bwd nu scale lam (yj_fwd nu scale lam x) = x.
+Proof.
+  intros Hp Hw. apply yj_bwd_fwd; [assumption|].
+  destruct Hw as [Hw|Hw].
+  - apply yj_same_side_nonpos; assumption.
+  - apply yj_same_side_pos; [eapply yj_lam_ge_m1; eassumption | assumption].
+Qed.
+
+Lemma ex_yj_band : yj_params_ok 0 1 (1/2) /\ 2 * EPS <= yj_w 0 1 1.
+Proof.
+  pose proof EPS_pos. assert (EPS < 1 / 4) by (unfold EPS, TR_EPS; lra).
+  split.
+  - unfold yj_params_ok, in_bounds, TR_YeoJohnson_nu_min, TR_YeoJohnson_nu_max,
+      TR_YeoJohnson_scale_min, TR_YeoJohnson_scale_max, TR_YeoJohnson_lam_min,
+      TR_YeoJohnson_lam_max. simpl. lra.
+  - unfold yj_w. lra.
+Qed.
